@@ -205,3 +205,34 @@ pub fn alias_table(sh: &Shell) -> Vec<(String, String)> {
     v.sort();
     v
 }
+
+pub fn expand_args(line: &str, args: &[String]) -> String { crate::scripting::verif_export::expand_args(line, args) }
+pub fn expand_args_token(token: &str, args: &[String]) -> String { crate::scripting::verif_export::expand_args_for_single_token(token, args) }
+pub fn is_args_in_token(token: &str) -> bool { crate::scripting::verif_export::is_args_in_token(token) }
+
+/// the pest parse tree of a script text as nested (rule, text, children); Err = syntax error
+pub fn parse_script(text: &str) -> Result<String, String> {
+    fn dump(p: pest::iterators::Pair<crate::parsers::locust::Rule>, out: &mut String) {
+        out.push('(');
+        out.push_str(&format!("{:?}", p.as_rule()));
+        out.push(' ');
+        for b in p.as_str().as_bytes() {
+            out.push_str(&format!("{:02x}", b));
+        }
+        for c in p.into_inner() {
+            out.push(' ');
+            dump(c, out);
+        }
+        out.push(')');
+    }
+    match crate::parsers::locust::parse_lines(text) {
+        Ok(pairs) => {
+            let mut out = String::new();
+            for p in pairs {
+                dump(p, &mut out);
+            }
+            Ok(out)
+        }
+        Err(e) => Err(format!("{}", e)),
+    }
+}
